@@ -15,11 +15,30 @@ import (
 	"golang.org/x/crypto/blake2b"
 )
 
-const (
+// service identifiers: set per run from one of several families (magnitudes and octet patterns differ; code that
+// derives keys, cache keys or orderings from an identifier must not depend on its size)
+var (
 	selfID  = types.ServiceID(100001)
 	peerID  = types.ServiceID(100002)
 	childID = types.ServiceID(100003) // ejectable child of self in some runs
 	richID  = types.ServiceID(100004)
+)
+
+var idFamilies = [][4]types.ServiceID{
+	{100001, 100002, 100003, 100004},
+	{0x00200001, 0x00201004, 0x00202007, 0x0020300A},
+	{0x9C000004, 0x9D000005, 0x9E000006, 0x9F000007},
+	{0xFFFFFFFE, 0xFFFFFFFD, 0xFFFFFFFC, 0xFFFFFFFB},
+	{0x00FF00FF, 0xFF0000FF, 0x00FFFF00, 0x01FF01FF},
+	{70255, 70000, 65536, 131071},
+}
+
+func pickIDs(t *sim.Tape) {
+	f := idFamilies[t.Pick([]int{4, 1, 1, 1, 1, 1}, "id_family")]
+	selfID, peerID, childID, richID = f[0], f[1], f[2], f[3]
+}
+
+const (
 	noneReg = math.MaxUint64
 	badPtr  = 0x100 // below 2^16: inaccessible
 )
@@ -131,6 +150,7 @@ func encodeMetaCode(code []byte) []byte {
 
 // genScenario draws a whole scenario from the tape.
 func genScenario(t *sim.Tape, r *sim.Run, sweep bool) *scenario {
+	pickIDs(t)
 	sc := &scenario{timeslot: types.TimeSlot(1000 + t.Choose(50, "slot"))}
 	copy(sc.eta[:], t.Bytes(4, "eta"))
 	sc.hugeArm = !sweep && t.Prob(1, 8, "huge_arm")
